@@ -52,6 +52,17 @@ BASE = {
                               "res /both on get -> <both> :: <status=404, pair num>;\n"},
         "inline": ["both"], "identity": ["both"], "module": ["list"],
     },
+    "declarations-of-two-directories": {
+        "files": {"main.oal": "let ident = str `format: \"uuid\"`;\nlet rootident = int `minimum: 1`;\nlet item = { 'id ident, 'n rootident };\nres /items on get -> <[item]> :: <status=404, rootident>;\n"},
+        "inline": [], "identity": [], "module": ["ident"],
+        # the same declarations moved into a module of a sub-directory that imports a sibling of its own, next to a file of
+        # the same name in the main directory
+        "extra": {"moved-into-a-sub-directory-with-an-import-of-its-own": {
+            "main.oal": 'use "lib/api.oal" as api;\nuse "types.oal" as rt;\nres /items on get -> <[api.item]> :: <status=404, rt.ident>;\n',
+            "types.oal": "let ident = int `minimum: 1`;\n",
+            "lib/api.oal": 'use "types.oal" as t;\nuse "../types.oal" as rt;\nlet item = { \'id t.ident, \'n rt.ident };\n',
+            "lib/types.oal": "let ident = str `format: \"uuid\"`;\n"}},
+    },
     "two-recursive-schemas": {
         "files": {"main.oal": "let tree = { 'id int, 'kids [tree] };\nlet chain = { 'id str, 'rest [chain] };\nres /t on get -> <tree>;\nres /c on get -> <chain>;\n"},
         "inline": [], "identity": [], "module": ["tree"], "split": [["tree"], ["chain"]],
@@ -109,6 +120,8 @@ def variants(name, spec):
             cur = rw.to_module(cur, group, module="dir%d/model.oal" % i)
         v["split-into-same-named-modules"] = cur
     v["renamed+reversed+trivia"] = {**files, "main.oal": rw.trivia(rw.permute(rw.rename(src), "reversed"), "block")}
+    for k_, files_ in (spec.get("extra") or {}).items():
+        v[k_] = files_
     return v
 
 
@@ -258,6 +271,8 @@ def check():
         # declaration still reach the definition graph (shared with C09)
         import props.c09 as c09
         c09.graph_lemmas(o, L, S, M, E, structural, on_sat)
+        # ... on an import meaning the same wherever the importing module lives (shared with C08)
+        c08.declare_import_lemma(o, M, E, M.one(r"^(resolve::)?declare_import$"), structural)
         # ... and on every instantiation of a rec getting a name of its own (shared with C09)
         c09.naming_lemmas(o, L, S, M, E, (M.one(r"^(eval::)?eval_recursion$"), M.one(r"^eval::<impl[^>]*>::node_identifier$"), M.one(r"^eval::<impl[^>]*>::push_scope$"),
                                          M.sel("eval", "new", ret=r"eval::Context")), structural, on_sat)
